@@ -4,6 +4,7 @@ import (
 	"bytes"
 	"fmt"
 	"math/rand"
+	"strings"
 
 	"olsim/core"
 	"olsim/gen"
@@ -13,10 +14,12 @@ import (
 // BeginBlock of every block, then only the transactions whose code was 0 on the main replica.
 
 type c06Oracle struct {
-	shadow   *core.Replica
-	failedTx int
+	shadow      *core.Replica
+	failedTx    int
 	okAfterFail int
-	blocks   int
+	blocks      int
+	exhausted   bool // the block gas limit was reached at store level: later blocks are not judged
+	poolReject  int  // failed OLVM transactions turned away by the block gas pool
 }
 
 func (o *c06Oracle) AfterStep(e *core.Engine, idx int, st *core.Step, stepErr error) []core.Violation {
@@ -38,6 +41,21 @@ func (o *c06Oracle) AfterStep(e *core.Engine, idx int, st *core.Step, stepErr er
 	if ra == nil {
 		return nil
 	}
+	if o.exhausted {
+		return nil
+	}
+	// The running gas total is the one thing a failed transaction may advance. Once the total reaches
+	// the block gas limit every later store access of the block is refused, so from then on the block
+	// with and the block without the failed transactions may legitimately differ (and so may every
+	// later block). The total only grows within a block: if it is below the limit after the block, the
+	// limit was never in the way, neither here nor on the twin (which consumes a subset).
+	if lim := e.W.Knobs.MaxGas; lim > 0 && ref.App != nil {
+		if int64(ref.App.VerifDeliverState().ConsumedGas()) >= lim {
+			o.exhausted = true
+			e.Stats.Probes["c06.block_gas_exhausted"]++
+			return nil
+		}
+	}
 	var keep [][]byte
 	var keepRes []core.TxRes
 	sawFail := false
@@ -51,6 +69,10 @@ func (o *c06Oracle) AfterStep(e *core.Engine, idx int, st *core.Step, stepErr er
 		} else {
 			o.failedTx++
 			sawFail = true
+			if strings.Contains(ra.Txs[i].Log, "gas limit reached") {
+				o.poolReject++
+				e.Stats.Probes["c06.olvm_rejected_by_gas_pool"]++
+			}
 		}
 	}
 	cb := e.C.Blocks[h-1]
@@ -107,10 +129,10 @@ func init() {
 		Id: "C06",
 		RuleText: "each run: one main replica executes a PRNG-built history biased to failures at every depth (overdrawn sends, whole-balance sends whose fee step fails, staking/delegation/withdraw failures, OLVM nonce/balance failures, unknown pools); " +
 			"a raw-mode shadow twin receives the captured RequestBeginBlock of each block, then only the transactions whose code was 0, then EndBlock/Commit. Oracle: same app hash every block, same code/data/gas for every surviving transaction, same validator updates. " +
-			"MaxGas=-1 (the running gas total is exempt). Non-trivial: >=2 failed transactions removed, >=1 successful transaction after a failed one in the same block, >=5 blocks; distinct = distinct fingerprints.",
+			"Block gas limit none/40M/8M per run; the running gas total is exempt: contracts never read GASLIMIT, and once the consumed total of a block reaches the limit (read from the deliver state after the block) the rest of the run is not judged. Non-trivial: >=2 failed transactions removed, >=1 successful transaction after a failed one in the same block, >=5 blocks; distinct = distinct fingerprints.",
 		MakeSetup: func(rng *rand.Rand, tier string, seed uint64) *Setup {
 			k := SwarmKnobs(rng)
-			k.MaxGas = -1
+			k.MaxGas = []int64{-1, 40000000, 8000000}[rng.Intn(3)]
 			su := &Setup{Knobs: k, Sess: gen.NewSession()}
 			// GASLIMIT makes the running gas total (exempt by the property) visible to contracts
 			su.Sess.M["olvm-no-gaslimit"] = true
